@@ -286,19 +286,26 @@ def task_scenarios(t):
                 vs.append(Violation('stale-connection-kept', 'auth-timeout', 'storm: %d of the first %d unregistered connections were still open well after auth_timeout (client slots %r)' %
                                     (len(kept), LIMITS['max_incomplete_connections'], kept), None))
             # a newcomer must be served now
-            nc = arena.new_hostile('registered')
-            if arena.uname.get(nc) is None:
-                vs.append(Violation('bystanders-not-served', 'newcomer', 'storm: a new client could not register after the stale connections should have been dropped', None))
-            else:
+            try:
+                nc = arena.new_hostile('registered')
+                served = arena.uname.get(nc) is not None
+            except B.BusError as e:
+                served = False
+                nc = None
+            if not served:
+                vs.append(Violation('bystanders-not-served', 'newcomer', 'storm: a new client could not connect and register after the stale connections should have been dropped', None))
+            elif nc is not None:
                 arena.close_slot(nc)
-            arena.round_trip(vs, 'storm after timeout')
+            if served:
+                arena.round_trip(vs, 'storm after timeout')
             for c in hs:
                 arena.bus.h.cmd('CLOSE %d' % c)
                 arena.bus.rawmode.discard(c)
             arena.bus.pump()
             for l in ('A', 'B', 'M'):
                 arena.take(l)
-            arena.restored(vs, 'storm')
+            if not vs:
+                arena.restored(vs, 'storm')
             n += 1
             for v in vs:
                 v.case = {'scenario': ['storm']}
